@@ -1,7 +1,7 @@
 #!/bin/bash
 # runs every quick (or $1) check once, prints one line each, validates evidence
 tier=${1:-quick}
-cd /verif
+cd ${VERIF_ROOT:-/verif}
 for p in $(python3 -c "import json;print(' '.join(c['property_id'] for c in json.load(open('MANIFEST.json'))['checks']))"); do
   s=$(date +%s); out=$(./run $p $tier 2>&1); rc=$?; e=$(( $(date +%s) - s ))
   kf=$(echo "$out" | grep -c '^KNOWN-FINDING')
@@ -10,7 +10,8 @@ done
 python3-vt - <<'PY'
 import json,jsonschema,glob
 sch=json.load(open('/root/.vp/EVIDENCE.schema.json'))
-for f in sorted(glob.glob('/verif/evidence/C*.json')):
+import os
+for f in sorted(glob.glob(os.environ.get('VERIF_ROOT','/verif')+'/evidence/C*.json')):
     try: jsonschema.validate(json.load(open(f)),sch)
     except Exception as e: print('INVALID',f,str(e)[:200])
 print('evidence validated')
